@@ -40,8 +40,16 @@ fn available(confirmed: &[u64], n_extra: u64) -> Vec<u64> {
     push(F, !has(D) && !has(D2));
     push(D, !has(F));
     push(D2, !has(F));
-    push(M, has(F) && !has(U));
-    push(U, has(F) && !has(M));
+    push(M, has(F) && !has(U) && !has(UC) && !has(UR));
+    push(U, has(F) && !has(M) && !has(UC) && !has(UR));
+    push(UC, has(F) && !has(M) && !has(U) && !has(UR));
+    push(SC, has(UC));
+    // breach: an old revoked counterparty commitment (only where the source survives it, finding F20)
+    if super::c13::SPENDABLE_FALLBACK {
+        push(UR, has(F) && !has(M) && !has(U) && !has(UC));
+        push(SR, has(UR));
+        push(JR, has(UR));
+    }
     push(S, has(U));
     push(T1, has(U) && !has(T12));
     push(T2, has(U) && !has(T12));
@@ -80,13 +88,22 @@ fn gen_block(rng: &mut Rng, plan: &Plan, aggressive: bool) -> Vec<u64> {
     blk
 }
 
+thread_local! { static CT: std::cell::RefCell<String> = std::cell::RefCell::new("s".to_string()); }
+
+/// op line with the tx tokens of the current case's channel type
 fn line(dir: &str, delivery: &str, blk: &[u64]) -> String {
+    let ct = CT.with(|c| c.borrow().clone());
     let mut s = format!("{} {}", dir, delivery);
     for id in blk {
         s.push(' ');
-        s.push_str(&tok(*id));
+        s.push_str(&tok_typed(&ct, *id));
     }
     s
+}
+
+fn typed_init(ct: &str) -> String {
+    CT.with(|c| *c.borrow_mut() = ct.to_string());
+    format!("{} | {}", init_line(), ct)
 }
 
 impl Group for C14 {
@@ -100,9 +117,17 @@ impl Group for C14 {
          a block with a monitor-relevant transaction"
     }
     fn budget(&self, tier: Tier) -> usize { if tier == Tier::Quick { 300 } else { 4000 } }
+    fn model_line(&self, op: &str) -> Option<String> {
+        Some(op.split(" | ").next().unwrap().trim_end().to_string())
+    }
     fn corpus(&self) -> Vec<Vec<String>> {
+        let mk_t = |ct: &str, steps: &[(&str, &str, &[u64])]| -> Vec<String> {
+            let mut v = vec![typed_init(ct)];
+            for (d, c, b) in steps { v.push(line(d, c, b)); }
+            v
+        };
         let mk = |steps: &[(&str, &str, &[u64])]| -> Vec<String> {
-            let mut v = vec![init_line()];
+            let mut v = vec![typed_init("s")];
             for (d, c, b) in steps { v.push(line(d, c, b)); }
             v
         };
@@ -119,12 +144,19 @@ impl Group for C14 {
             // full sweep over several blocks, reorg of the last second-level sweep only (seeded change C15/1)
             mk(&[("add", "c", &[F]), ("add", "c", &[U]), ("add", "c", &[S, T1]), ("add", "c", &[T2, V1]), ("add", "c", &[V2]),
                  ("remove", "c", &[V2]), ("add", "c", &[]), ("add", "c", &[V2]), ("remove", "c", &[V2]), ("remove", "c", &[]), ("remove", "c", &[T2, V1])]),
+            // rejected streamed block (orphan at the start of a reorg), then streamed blocks again (seeded change C14/1 of round 2)
+            mk(&[("add", "s", &[F]), ("orphan", "s", &[X0]), ("add", "s", &[U]), ("orphan", "s", &[]), ("remove", "s", &[U]), ("add", "s", &[M])]),
+            // anchors channel closed by the counterparty's commitment: our to_remote output must be recognised and swept
+            mk_t("a", &[("add", "c", &[F]), ("add", "c", &[UC]), ("add", "c", &[SC]), ("remove", "c", &[SC]), ("remove", "c", &[UC]), ("add", "c", &[U, S])]),
+            mk_t("s", &[("add", "c", &[F, UC]), ("add", "s", &[SC]), ("remove", "c", &[SC])]),
             // everything in one block
             mk(&[("add", "c", &[F, U, S, T12, V12A, V12B]), ("remove", "c", &[F, U, S, T12, V12A, V12B]), ("add", "c", &[D])]),
         ]
     }
     fn gen_case(&self, rng: &mut Rng, tier: Tier) -> Vec<String> {
-        let mut ops = vec![init_line()];
+        // (CommitmentType::Legacy is refused by validate_setup_channel: "unsafe commitment type")
+        let ct = if rng.chance(1, 2) { "s" } else { "a" };
+        let mut ops = vec![typed_init(ct)];
         let mut plan = Plan::default();
         let delivery = |rng: &mut Rng| if rng.chance(1, 3) { "s" } else { "c" };
         let rdelivery = |rng: &mut Rng| if super::c13::REMOVE_EXPECTS_TIP_HASH && rng.chance(1, 3) { "s" } else { "c" };
@@ -222,6 +254,11 @@ impl Group for C14 {
         let steps = rng.range(3, if tier == Tier::Quick { 9 } else { 16 });
         let aggressive = rng.chance(2, 3);
         for _ in 0..steps {
+            if rng.chance(1, 6) {
+                // a block of the competing branch arrives before the disconnections: refused as orphan
+                let blk = if rng.chance(1, 2) { vec![X0 + 3] } else { vec![] };
+                ops.push(line("orphan", if rng.chance(2, 3) { "s" } else { "c" }, &blk));
+            }
             let do_reorg = !plan.blocks.is_empty() && rng.chance(1, 3);
             if do_reorg {
                 let depth = rng.range(1, (plan.blocks.len() as u64).min(6));
@@ -251,6 +288,7 @@ impl Group for C14 {
         let mut chain: Vec<Vec<u64>> = Vec::new(); // surviving chain (pool ids per block)
         let mut dead = false;
         let mut relevant_reorg = false;
+        let mut ct = "s".to_string();
         let mut htlc_reorg_seen = false; // a block with an HTLC / second-level spend was disconnected earlier in this case
         for (i, op) in ops.iter().enumerate() {
             let t: Vec<&str> = op.split_whitespace().collect();
@@ -260,11 +298,37 @@ impl Group for C14 {
             }
             let l = match t.as_slice() {
                 ["init", ..] => {
-                    let nw = World::new();
+                    ct = op.split(" | ").nth(1).unwrap_or("s").trim().to_string();
+                    let nw = World::new_typed(&ct);
                     let d = nw.digest();
                     w = Some(nw);
                     chain.clear();
                     format!("ok {}", d)
+                }
+                ["orphan", delivery, rest @ ..] => {
+                    let wd = w.as_mut().expect("init first");
+                    let ids: Vec<u64> = rest.iter().map(|tk| parse_token_id(tk)).collect();
+                    let before = wd.digest();
+                    match wd.add_orphan(&ids, *delivery == "s") {
+                        StepResult::Panic(msg) => {
+                            dead = true;
+                            co.violations.push(Violation { kind: "add-abort".into(), desc: format!("an orphan block panicked inside the implementation: {}", msg), at: i });
+                            "panic".to_string()
+                        }
+                        StepResult::Ok => {
+                            co.violations.push(Violation { kind: "orphan-block-accepted".into(), desc: format!("{} was accepted", op), at: i });
+                            format!("ok {}", wd.digest())
+                        }
+                        StepResult::Err(_) => {
+                            co.tags.insert(format!("orphan-refused:{}", if *delivery == "s" { "streamed" } else { "compact" }));
+                            let after = wd.digest();
+                            // (the block chunks set the monitors' saw_block flag, which is outside the view)
+                            if strip_sb(&after) != strip_sb(&before) {
+                                co.violations.push(Violation { kind: "rejected-block-changed-view".into(), desc: format!("{} refused but the view changed: [{}] -> [{}]", op, before, after), at: i });
+                            }
+                            format!("rej {}", after)
+                        }
+                    }
                 }
                 [dir @ ("add" | "remove"), delivery, rest @ ..] => {
                     let wd = w.as_mut().expect("init first");
@@ -275,8 +339,9 @@ impl Group for C14 {
                         StepResult::Panic(msg) => {
                             dead = true;
                             co.tags.insert(format!("{}:panic", dir));
+                            let breach = *dir == "add" && ids.contains(&UR) && msg.contains("valid spendable HTLC indices");
                             co.violations.push(Violation {
-                                kind: if *dir == "remove" { "reorg-abort".into() } else { "add-abort".into() },
+                                kind: if breach { "revoked-commitment-close-abort".into() } else if *dir == "remove" { "reorg-abort".into() } else { "add-abort".into() },
                                 desc: format!("{} of a consensus-valid block panicked inside the implementation: {}", dir, msg),
                                 at: i,
                             });
@@ -293,6 +358,26 @@ impl Group for C14 {
                         }
                         StepResult::Ok => {
                             if *dir == "add" {
+                                // the decoder is an input of the model; check it against what the harness built: the output
+                                // the closing transaction pays to us and its HTLC outputs must be the ones the monitor tracks
+                                for cid in [U, UC, UR] {
+                                    if ids.contains(&cid) {
+                                        let st = wd.state_json();
+                                        let co_ = &st["closing_outpoints"];
+                                        let (bo, bh) = wd.built[&cid].clone();
+                                        let seen_our = co_["our_output"].get(0).and_then(|x| x.as_u64()).map(|x| x as u32);
+                                        let mut seen_h: Vec<u32> = co_["htlc_outputs"].as_array().map(|a| a.iter().filter_map(|x| x.as_u64()).map(|x| x as u32).collect()).unwrap_or_default();
+                                        seen_h.sort();
+                                        co.tags.insert(format!("close:{}:{}", if cid == U { "holder-commitment" } else if cid == UC { "counterparty-commitment" } else { "revoked-counterparty-commitment" }, wd.ctype));
+                                        if seen_our != Some(bo) || seen_h != bh {
+                                            co.violations.push(Violation {
+                                                kind: "our-output-not-recognised".into(),
+                                                desc: format!("channel type {}: closing tx {} pays us output {} and HTLC outputs {:?}, the monitor tracks our={:?} htlcs={:?}", wd.ctype, cid, bo, bh, seen_our, seen_h),
+                                                at: i,
+                                            });
+                                        }
+                                    }
+                                }
                                 chain.push(ids.clone());
                                 co.tags.insert(format!("add:{}", if streamed { "streamed" } else { "compact" }));
                                 if ids.contains(&U) && ids.contains(&S) { co.tags.insert("close+sweep-one-block".into()); }
@@ -304,7 +389,7 @@ impl Group for C14 {
                                     relevant_reorg = true;
                                     co.tags.insert("remove:relevant".into());
                                 }
-                                for (id, tag) in [(F, "funding"), (D, "doublespend"), (D2, "doublespend"), (M, "mutual"), (U, "unilateral"), (S, "sweep"),
+                                for (id, tag) in [(F, "funding"), (D, "doublespend"), (D2, "doublespend"), (M, "mutual"), (U, "unilateral"), (UC, "unilateral-cp"), (S, "sweep"), (SC, "sweep"),
                                                   (T1, "htlc"), (T2, "htlc"), (T12, "htlc"), (V1, "second-level"), (V2, "second-level"),
                                                   (V12A, "second-level"), (V12B, "second-level")] {
                                     if ids.contains(&id) { co.tags.insert(format!("reorg-of:{}", tag)); }
@@ -316,7 +401,7 @@ impl Group for C14 {
                             // property monitor: view == fresh replay of the surviving chain
                             let view = strip_sb(&wd.digest());
                             let fresh = {
-                                let mut f = World::new();
+                                let mut f = World::new_typed(&ct);
                                 let mut ok = true;
                                 for b in &chain {
                                     if !matches!(f.add_block(b, false), StepResult::Ok) { ok = false; break; }
@@ -369,6 +454,43 @@ fn split_watches(d: &str) -> (String, String) {
     (a.join(" "), b.join(" "))
 }
 
+/// Implementation-only group with the breach witnesses (finding F20): a block confirming an OLD, revoked
+/// counterparty commitment of the channel, its sweeps, and a reorg through them.  Runs on every tree; the main
+/// group generates such closes only where the source survives them.
+pub struct C14Breach;
+
+impl Group for C14Breach {
+    fn property(&self) -> &'static str { "C14" }
+    fn model(&self) -> Option<&'static str> { None }
+    fn rule(&self) -> &'static str {
+        "breach: old revoked counterparty commitment confirmed (static-remotekey and anchors channels, compact and streamed), \
+         swept, reorged; fixed witnesses only; non-trivial = the close was processed"
+    }
+    fn budget(&self, _tier: Tier) -> usize { 0 }
+    fn corpus(&self) -> Vec<Vec<String>> {
+        let mut v = Vec::new();
+        for ct in ["s", "a"] {
+            for del in ["c", "s"] {
+                let mut ops = vec![typed_init(ct)];
+                ops.push(line("add", "c", &[F]));
+                ops.push(line("add", del, &[UR]));
+                ops.push(line("add", "c", &[SR, JR]));
+                ops.push(line("remove", "c", &[SR, JR]));
+                ops.push(line("remove", "c", &[UR]));
+                ops.push(line("add", "c", &[UR, SR]));
+                v.push(ops);
+            }
+        }
+        v
+    }
+    fn gen_case(&self, _rng: &mut Rng, _tier: Tier) -> Vec<String> { vec![] }
+    fn exec_case(&self, ops: &[String]) -> CaseOut {
+        let mut co = C14.exec_case(ops);
+        co.nontrivial = co.tags.iter().any(|t| t.starts_with("close:revoked"));
+        co
+    }
+}
+
 pub fn groups() -> Vec<Box<dyn Group>> {
-    vec![Box::new(C14)]
+    vec![Box::new(C14), Box::new(C14Breach)]
 }
